@@ -36,6 +36,9 @@ ALPHA = [
     ('exec-string by 1', lambda ts: [R('TRACE_STRING_EXEC', 0, tid=1, ts=ts, data=b'e' * 32)]),
     ('exec-string-empty by 1', lambda ts: [R('TRACE_STRING_EXEC', 0, tid=1, ts=ts, data=bytes(32))]),    # declares the EMPTY name
     ('exec-string by 3', lambda ts: [R('TRACE_STRING_EXEC', 0, tid=3, ts=ts, data=b'f' * 32)]),     # thread 3 never emits the DATA half
+    # thread names are not process names: a thread whose ID is numerically a process id is renamed (its former name is logged)
+    ('threadname-prev by 3', lambda ts: [R('TRACE_STRING_THREADNAME_PREV', 0, tid=3, ts=ts, data=b'formername'.ljust(32, b'\0'))]),
+    ('threadname by 2', lambda ts: [R('TRACE_STRING_THREADNAME', 0, tid=2, ts=ts, data=b'newname'.ljust(32, b'\0'))]),
 ]
 MAPS = [[], [(1, 10, 'A')], [(1, 10, 'A'), (2, 20, 'B')], [(1, 2, 'A'), (2, 1, 'B'), (3, 3, 'C')],   # tids collide with pids
         [(1, 0xffffffff, 'M'), (2, 0x80000000, 'N')],   # pids with the top bit set
@@ -144,8 +147,10 @@ def model(m, seq):
             old = (dict(tp), dict(pn))
             tp[3] = 99
             out.append((2, [old, (dict(tp), dict(pn))]))
-        elif nm.startswith('wait') or nm.startswith('thread-terminate'):
+        elif nm.startswith('wait') or nm.startswith('thread-terminate') or nm == 'threadname by 2':
             out.append((2, [(dict(tp), dict(pn))]))
+        elif nm == 'threadname-prev by 3':
+            out.append((3, [(dict(tp), dict(pn))]))
         elif nm.startswith('exec-data'):
             last_exec[1] = 20
             out.append((1, [(dict(tp), dict(pn))]))
